@@ -1818,19 +1818,16 @@ def _tab23_search(u, fn, searches, R):
 
 def _lin9(u, e, env):
     """(const, {symbol: coeff}) of a size expression over pointers and counters of parse_string; None when not linear.
-    Symbols: 'cur' for B->content + B->offset, variable names otherwise."""
+    Symbols: 'content', 'off', 'len' for the fields of the parse buffer, variable names otherwise."""
     e = strip_casts(e)
     v = const_val(e)
     if v is not None:
         return (v, {})
     k = e.get('k')
+    if k == 'mem' and e['f'] in ('content', 'offset', 'length') and e.get('arrow'):
+        return (0, {{'content': 'content', 'offset': 'off', 'length': 'len'}[e['f']]: 1})
     if k == 'bin' and e['op'] in ('+', '-'):
         l, r = strip_casts(e['l']), strip_casts(e['r'])
-        if e['op'] == '+':
-            for (x, y) in ((l, r), (r, l)):
-                if x.get('k') == 'mem' and x['f'] == 'content' and y.get('k') == 'mem' and y['f'] == 'offset' and \
-                        expr_str(strip_casts(x['b'])) == expr_str(strip_casts(y['b'])):
-                    return (0, {'cur': 1})
         a, b = _lin9(u, l, env), _lin9(u, r, env)
         if a is None or b is None:
             return None
@@ -1922,28 +1919,73 @@ def out9(units, R, fn_name='parse_string'):
     stepped = {strip_casts(x['e'])['n'] for x in fn.nodes() if x.get('k') == 'un' and x.get('op') in ('pre++', 'pre--', 'post++', 'post--')
                and is_ref(x['e'])}
 
-    def start_of(name):
-        vals = [v for v in inits.get(name, []) if v is None or not (is_null_const(v) or strip_casts(v).get('null'))]
+    # single-definition locals that are never stepped are what they were defined as (allocation_length, a cached content pointer)
+    env = {}
+    decl_of = {d_['n']: d_ for d_ in fn.locals()}
+    compound = {strip_casts(a_['l'])['n'] for a_ in assignments(fn) if is_ref(a_['l']) and a_['op'] != '='}
+    for _round in range(3):
+        for d_ in fn.locals():
+            if u.ty(d_['ty'])['c'] not in ('int', 'ptr') or d_['n'] in stepped or d_['n'] in compound:
+                continue
+            vals = [v for v in inits.get(d_['n'], [])]
+            vals = [v for v in vals if not (v is not None and (const_val(v) == 0 or is_null_const(v) or strip_casts(v).get('null')) and len(vals) > 1)]
+            if len(vals) == 1 and vals[0] is not None and strip_casts(vals[0]).get('k') != 'call':
+                l_ = _lin9(u, vals[0], env)
+                if l_ is not None and d_['n'] not in l_[1]:
+                    env[d_['d']] = l_
+
+    def form(name_or_pair):
+        """linear position of a cursor as it moves: a pointer variable is its own symbol, content[i] is the base plus the index"""
+        if isinstance(name_or_pair, tuple):
+            b_, i_ = name_or_pair
+            bd = decl_of.get(b_)
+            base = env.get(bd['d']) if bd is not None and bd['d'] in env else (0, {b_: 1})
+            t_ = dict(base[1])
+            t_[i_] = t_.get(i_, 0) + 1
+            return (base[0], t_)
+        return (0, {name_or_pair: 1})
+
+    def start_of(name_or_pair):
+        if isinstance(name_or_pair, tuple):
+            b_, i_ = name_or_pair
+            si = start_of(i_)
+            bd = decl_of.get(b_)
+            base = env.get(bd['d']) if bd is not None and bd['d'] in env else (0, {b_: 1})
+            if si is None:
+                return None
+            t_ = dict(base[1])
+            for kk, vv in si[1].items():
+                t_[kk] = t_.get(kk, 0) + vv
+            return (base[0] + si[0], {kk: vv for kk, vv in t_.items() if vv})
+        vals = [v for v in inits.get(name_or_pair, []) if v is None or not (is_null_const(v) or strip_casts(v).get('null'))]
         vals = [v for v in vals if v is not None]       # steps of the cursor itself are not its start
-        forms = {repr(_lin9(u, v, {})) for v in vals}
+        forms = {repr(_lin9(u, v, env)) for v in vals}
         if len(forms) != 1 or 'None' in forms:
+            # a cursor that is re-based once behind its initialiser starts there only if the initialiser is what the loop sees;
+            # take the initialiser when every later definition lies behind the loops (the decoder's end, set after the scan)
             return None
-        return _lin9(u, vals[0], {})
+        return _lin9(u, vals[0], env)
     S2 = start_of(c2)
     if S2 is None:
         raise AnalysisBroken('OUT9: where the decoder of %s starts (%s) is not one linear position' % (fn_name, c2))
     n = 0
     K = None
+    # where the decoder stops, as a position
+    Eform = (0, {E['n']: 1})
+    if E['n'] not in stepped:
+        edefs = [a_['r'] for a_ in assignments(fn) if is_ref(a_['l']) and strip_casts(a_['l'])['n'] == E['n'] and a_['op'] == '=' and
+                 not (is_null_const(a_['r']) or strip_casts(a_['r']).get('null'))]
+        eforms = {repr(_lin9(u, v, env)) for v in edefs}
+        if len(eforms) == 1 and 'None' not in eforms:
+            Eform = _lin9(u, edefs[0], env)
     if scan:
         H1, c1, ssegs = scan[0]
         S1 = start_of(c1)
-        # E is the scan cursor, or a copy of it made behind the scan
-        same = E['n'] == c1 or [strip_casts(v).get('n') for v in inits.get(E['n'], []) if v is not None and
-                                not (is_null_const(v) or strip_casts(v).get('null'))] == [c1]
+        same = Eform == form(c1)
         n += 1
         R.ob('OUT9', fn, None, 'the decoder runs over what the scan measured', same and S1 == S2,
              'both start at %s and the decoder stops where the scan did (%s)' % (S2, E['n']) if same and S1 == S2 else
-             'scan: from %s to %s; decoder: from %s to %s' % (S1, c1, S2, E['n']), key='same-region', line=line2)
+             'scan: from %s to %s; decoder: from %s to %s' % (S1, form(c1), S2, Eform), key='same-region', line=line2)
     # the block
     root = None
     for sg in ex.segments:
@@ -1958,18 +2000,6 @@ def out9(units, R, fn_name='parse_string'):
     if len(allocs) != 1:
         raise AnalysisBroken('OUT9: %d allocations of %s in %s' % (len(allocs), root[1], fn_name))
     size_e = strip_casts(allocs[0]['r'])['args'][-1] if callee_name(strip_casts(allocs[0]['r'])) in ('realloc',) else strip_casts(allocs[0]['r'])['args'][0]
-    # single-definition integer locals are what they were defined as (allocation_length)
-    env = {}
-    for _round in range(3):
-        for d_ in fn.locals():
-            if u.ty(d_['ty'])['c'] != 'int':
-                continue
-            vals = [v for v in inits.get(d_['n'], [])]
-            vals = [v for v in vals if not (v is not None and const_val(v) == 0 and len(vals) > 1)]
-            if len(vals) == 1 and vals[0] is not None and d_['n'] not in stepped:
-                l_ = _lin9(u, vals[0], env)
-                if l_ is not None and d_['n'] not in l_[1]:
-                    env[d_['d']] = l_
     size = _lin9(u, size_e, env)
     if size is None:
         raise AnalysisBroken('OUT9: the size %s of the output block is not linear' % expr_str(size_e)[:60])
@@ -1981,11 +2011,17 @@ def out9(units, R, fn_name='parse_string'):
         const += k_ * S2[0]
         for kk, vv in S2[1].items():
             terms[kk] = terms.get(kk, 0) + k_ * vv
+    if E['n'] in terms and Eform != (0, {E['n']: 1}):
+        # the end is a variable set once behind the scan: in the size it stands for what it was set to
+        k_ = terms.pop(E['n'])
+        const += k_ * Eform[0]
+        for kk, vv in Eform[1].items():
+            terms[kk] = terms.get(kk, 0) + k_ * vv
     # need = (E - S2) - K + 1
-    need_terms = {E['n']: 1}
+    need_terms = dict(Eform[1])
     for kk, vv in S2[1].items():
         need_terms[kk] = need_terms.get(kk, 0) - vv
-    need_const = -S2[0] + 1
+    need_const = Eform[0] - S2[0] + 1
     diff = {kk: terms.get(kk, 0) - need_terms.get(kk, 0) for kk in set(terms) | set(need_terms)}
     diff = {kk: vv for kk, vv in diff.items() if vv != 0}
     counters = [kk for kk, vv in diff.items() if vv == -1 and kk in {d_['n'] for d_ in fn.locals() if u.ty(d_['ty'])['c'] == 'int'}]
